@@ -40,7 +40,11 @@ class FortranRegularExpressions:
     SUBMOD: Pattern = compile(r"[ ]*SUBMODULE[ ]*\(", I)
     END_SMOD: Pattern = compile(r"SUBMODULE", I)
     END_PRO: Pattern = compile(r"(MODULE)?[ ]*PROCEDURE", I)
-    BLOCK: Pattern = compile(r"[ ]*([a-z_]\w*[ ]*:[ ]*)?BLOCK|CRITICAL(?!\w)", I)
+    # The keyword must end there: ``blocks(1) = 2`` or ``block_size(i) = 0`` are
+    # assignments, not constructs
+    BLOCK: Pattern = compile(
+        r"[ ]*([a-z_]\w*[ ]*:[ ]*)?(?:BLOCK(?![\w(%=])|CRITICAL(?![\w%=]))", I
+    )
     END_BLOCK: Pattern = compile(r"BLOCK|CRITICAL", I)
     DO: Pattern = compile(r"[ ]*(?:[a-z_]\w*[ ]*:[ ]*)?DO([ ]+[0-9]*|$)", I)
     END_DO: Pattern = compile(r"DO", I)
@@ -61,7 +65,9 @@ class FortranRegularExpressions:
     END_SELECT: Pattern = compile(r"SELECT", I)
     PROG: Pattern = compile(r"[ ]*PROGRAM[ ]+(\w+)", I)
     END_PROG: Pattern = compile(r"PROGRAM", I)
-    INT: Pattern = compile(r"[ ]*(ABSTRACT)?[ ]*INTERFACE[ ]*(\w*)", I)
+    INT: Pattern = compile(
+        r"[ ]*(ABSTRACT)?[ ]*INTERFACE(?![\w(%=])[ ]*(\w*)", I
+    )
     END_INT: Pattern = compile(r"INTERFACE", I)
     END_WORD: Pattern = compile(
         r"[ ]*END[ ]*(DO|WHERE|IF|BLOCK|CRITICAL|ASSOCIATE|SELECT"
